@@ -348,12 +348,21 @@ func placeFirstImport(fset *token.FileSet, f *ast.File) {
 		if cg.Pos() >= next || line(cg.Pos()) > line(end)+1 {
 			break
 		}
+		if len(f.Decls) > 1 && line(cg.End())+1 >= line(next) {
+			// the doc comment of the first declaration, which happens to
+			// stand directly below the package clause: the import goes in
+			// front of it
+			next = cg.Pos()
+			break
+		}
 		end = cg.End()
 	}
 
+	// the line break behind the clause and its comments, unless what follows
+	// begins right there
 	pos := end + 1
-	if pos > next {
-		pos = next
+	if pos >= next {
+		pos = end
 	}
 	decl.TokPos = pos
 	if spec, ok := decl.Specs[0].(*ast.ImportSpec); ok {
